@@ -10,7 +10,9 @@ EXTENDS Naturals, Sequences, FiniteSets, TLC
 CONSTANTS MaxName, MaxExtra, Chars,
           QuoteOnTabAndBackslash,   \* printer: also quote fields with tab / backslash and escape backslashes
           QuoteExtra,               \* printer: targets and locations go through the same quoting as names
-          QuoteOnOtherSpace         \* printer: also quote fields that contain other white space (the last field of a line would lose it)
+          QuoteOnOtherSpace,        \* printer: also quote fields that contain other white space (the last field of a line would lose it)
+          LocationQuoteByWhole      \* TRUE as built: with --unpack-root the location <root>/<path> is quoted as ONE string; FALSE: the decision is taken
+                                    \* from the path alone and the root is printed in front of it as it is
 Strs(n) == UNION {[1..k -> Chars] : k \in 1..n}
 Has(x, c) == \E i \in 1..Len(x) : x[i] = c
 IsSep(c) == c \in {"s", "t"}
@@ -24,10 +26,15 @@ PrintField(x) ==
   THEN (IF Has(x, "s") \/ Has(x, "t") \/ Has(x, "q") \/ Has(x, "b") \/ (QuoteOnOtherSpace /\ Has(x, "w")) THEN <<"q">> \o Escape(x, {"q", "b"}) \o <<"q">> ELSE x)
   ELSE (IF Has(x, "s") \/ Has(x, "q") THEN <<"q">> \o Escape(x, {"q"}) \o <<"q">> ELSE x)
 PrintExtra(x) == IF QuoteExtra THEN PrintField(x) ELSE x
+NeedsQuote(x) == PrintField(x) # x
+PrintLocation(root, name) ==                     \* kind "ufile": file line with the location column <root>/<name> ('/' is a plain character)
+  IF LocationQuoteByWhole THEN PrintExtra(root \o <<"p">> \o name)
+  ELSE IF NeedsQuote(name) THEN <<"q">> \o Escape(root \o <<"p">> \o name, IF QuoteOnTabAndBackslash THEN {"q", "b"} ELSE {"q"}) \o <<"q">>
+  ELSE root \o <<"p">> \o name
 Perm == <<"p">>                                  \* stands for " 0644 0 0": three plain tokens
 LineOf(e) ==
   <<"p">> \o <<"s">> \o PrintField(e.name) \o <<"s">> \o Perm \o <<"s">> \o Perm \o <<"s">> \o Perm
-          \o (IF e.extra = <<>> THEN <<>> ELSE <<"s">> \o PrintExtra(e.extra))
+          \o (IF e.extra = <<>> THEN <<>> ELSE IF e.kind = "ufile" THEN <<"s">> \o PrintLocation(e.extra, e.name) ELSE <<"s">> \o PrintExtra(e.extra))
 
 (* ---------------- parser: split_line ---------------- *)
 Err == <<"err">>
@@ -60,6 +67,7 @@ Parse(line, kind) ==
        IF Len(a) < 5 THEN Err
        ELSE IF a[3] # <<"p">> \/ a[4] # <<"p">> \/ a[5] # <<"p">> THEN Err          \* mode / uid / gid must be numbers
        ELSE IF kind = "slink" THEN (IF Len(a) = 6 THEN [kind |-> kind, name |-> a[2], extra |-> a[6]] ELSE Err)
+       ELSE IF kind = "ufile" THEN (IF Len(a) = 6 THEN [kind |-> kind, name |-> a[2], extra |-> a[6]] ELSE Err)
        ELSE IF kind = "file" THEN (IF Len(a) = 5 THEN [kind |-> kind, name |-> a[2], extra |-> <<>>]
                                    ELSE IF Len(a) = 6 THEN [kind |-> kind, name |-> a[2], extra |-> a[6]] ELSE Err)
        ELSE (IF Len(a) = 5 THEN [kind |-> kind, name |-> a[2], extra |-> <<>>] ELSE Err)
@@ -68,10 +76,12 @@ VARIABLE entry
 Entries == [kind : {"dir"}, name : Strs(MaxName), extra : {<<>>}]
            \cup [kind : {"slink"}, name : Strs(MaxName), extra : Strs(MaxExtra)]
            \cup [kind : {"file"}, name : Strs(MaxName), extra : {<<>>} \cup Strs(MaxExtra)]
+           \cup [kind : {"ufile"}, name : Strs(MaxName), extra : Strs(MaxExtra)]          \* extra = the unpack root
 Init == entry \in Entries
 Next == UNCHANGED entry
 Spec == Init /\ [][Next]_entry
-RoundTrip == Parse(LineOf(entry), entry.kind) = entry
+Expect(e) == IF e.kind = "ufile" THEN [e EXCEPT !.extra = e.extra \o <<"p">> \o e.name] ELSE e
+RoundTrip == Parse(LineOf(entry), entry.kind) = Expect(entry)
 (* the part of the property that concerns names only / extras only, to report failing classes separately *)
 NameRoundTrip  == LET e == [entry EXCEPT !.extra = <<>>, !.kind = "dir"] IN Parse(LineOf(e), "dir") = e
 =============================================================================
